@@ -98,11 +98,9 @@ example :
     let q' : Query := { start := some 9, stop := some 4 }
     getMatching db q = [z] ∧ getMatching db q' = [] ∧ ¬ (∀ r ∈ db.records, r.start < r.stop) ∧ ¬ WindowOk q' := by decide
 
-/-- `num_matches(seqid, biotype, name, strand)` is the length of the linear scan.  `_partial`: without
-`attributes` — `num_matches` does not go through `_get_records_matching`, so its `attributes` value is
-compared with `=` instead of the `%…%` substring search of the two query methods (counterexample below,
-replayed on the real class by the harness: open finding C17-num-matches-attributes-exact). -/
-theorem num_matches_is_scan_count_partial (db : Db) (q : Query) (h : q.attributes = none) :
+/-- `num_matches(seqid, biotype, name, strand, attributes)` is the length of the linear scan, for every
+subset of its arguments (since 969aa691c `attributes` is the same substring search as in the query methods). -/
+theorem num_matches_is_scan_count (db : Db) (q : Query) :
     numMatches db q = (linearScan db.records { q with start := none, stop := none }).length := by
   unfold numMatches linearScan Db.records
   rw [filter_flatMap]
@@ -111,8 +109,7 @@ theorem num_matches_is_scan_count_partial (db : Db) (q : Query) (h : q.attribute
   apply List.filter_congr
   intro r _
   unfold countMatches countConds specMatch windowMatch
-  have hn : optMatch none r.attrs = true := rfl
-  simp only [List.all_append, optCond_spec, h, Option.map_none, hn, Bool.and_true]
+  simp only [List.all_append, optCond_spec, Bool.and_true]
   rw [Bool.and_comm (optMatch q.seqid r.seqid)]
 
 example :
@@ -121,13 +118,12 @@ example :
     let db : Db := { kind := .gff, tables := [("gff", [r2, r1]), ("user", [r1])] }
     numMatches db { seqid := some "s1", name := some "a" } = 2 ∧ numMatches db {} = 3 := by decide
 
-/- FULL STATEMENT (not proved, false): the same for every `q`, with `attributes` the substring search. -/
-theorem num_matches_attributes_counter :
+-- the former counterexample: both records match the substring now
+example :
     let r1 := mkUserRec "s1" "gene" "a" none (some "k=zq;") [(2, 5)]
     let r2 := mkUserRec "s1" "gene" "b" none (some "zq") [(7, 9)]
     let db : Db := { kind := .basic, tables := [("user", [r1, r2])] }
-    let q : Query := { attributes := some "zq" }
-    numMatches db q = 1 ∧ (getMatching db q).length = 2 := by
+    numMatches db { attributes := some "zq" } = 2 := by
   decide +kernel
 
 /-- `add_feature` stores spans that denote the same set of positions as the spans given
